@@ -562,13 +562,76 @@ package sam
 //@   ensures [idx] forall(t, 0, len(sent(chnl)), sent(chnl)[t].idx == t && len(sent(chnl)[t].records) >= 1)
 
 //@ # C18: validation prefixes of the entry points (statements before the first goroutine)
-//@ func ToPairAlign prefix
+//@ # the whole orchestration of `sam toPairAlign` in spawns mode (model and assumptions: see closest.Closest)
+//@ func ToPairAlign spawns
 //@   modifies everything
 //@   after if#2: assert [c18.oneref] len(refs) == 1
 //@   after if#3: assert [c18.window] 1 <= trimStart && trimStart <= trimEnd && trimEnd <= len(refSeq)
-//@ func Variants prefix
+//@   after assign:cWriteDone#1: assume [env.errors] forallint(k, envat(cErr, k) != nil)
+//@   ghost gErrSeen bool = false
+//@   before call:groupSamRecords#1: assert [c02.reader] arg(0) == samIn && arg(1) == cSH && arg(2) == cSR && arg(3) == cReadDone && arg(4) == cErr
+//@   before call:writePairwiseAlignment#1: assert [c02.writer] arg(0) == outpath && arg(1) == wrap && arg(2) == cPairTrim && arg(3) == cWriteDone && arg(4) == cErr && arg(5) == omitRef
+//@   before call:blockToPairwiseAlignment#1: assert [c02.worker] arg(0) == cSR && arg(1) == cPairAlign && arg(2) == cErr && arg(4) == omitIns
+//@   before call:trimAlignment#1: assert [c15.trimmer] arg(0) == trim && arg(1) == trimStart && arg(2) == trimEnd && arg(3) == cPairAlign && arg(4) == cPairTrim && arg(5) == cErr
+//@   before return#4: do gErrSeen = true
+//@   before return#4: assert [c18.error.first] len(recvd(cErr)) == 1 && err == recvd(cErr)[0]
+//@   loop 1:
+//@     invariant !gErrSeen && len(recvd(cErr)) == 0 && len(recvd(cReadDone)) == 0 && len(recvd(cAlignWaitGroupDone)) == 0 && len(recvd(cTrimWaitGroupDone)) == 0 && len(recvd(cWriteDone)) == 0
+//@   loop 2:
+//@     invariant !gErrSeen && len(recvd(cErr)) == 0 && len(recvd(cReadDone)) == 0 && len(recvd(cAlignWaitGroupDone)) == 0 && len(recvd(cTrimWaitGroupDone)) == 0 && len(recvd(cWriteDone)) == 0
+//@   loop 3:
+//@     invariant !gErrSeen && len(recvd(cErr)) == 0 && 0 <= n && n <= 1 && len(recvd(cReadDone)) + n == 1 && len(recvd(cAlignWaitGroupDone)) == 0 && len(recvd(cTrimWaitGroupDone)) == 0 && len(recvd(cWriteDone)) == 0
+//@   loop 4:
+//@     invariant !gErrSeen && len(recvd(cErr)) == 0 && len(recvd(cReadDone)) == 1 && 0 <= n && n <= 1 && len(recvd(cAlignWaitGroupDone)) + n == 1 && len(recvd(cTrimWaitGroupDone)) == 0 && len(recvd(cWriteDone)) == 0
+//@   loop 5:
+//@     invariant !gErrSeen && len(recvd(cErr)) == 0 && len(recvd(cReadDone)) == 1 && len(recvd(cAlignWaitGroupDone)) == 1 && 0 <= n && n <= 1 && len(recvd(cTrimWaitGroupDone)) + n == 1 && len(recvd(cWriteDone)) == 0
+//@   loop 6:
+//@     invariant !gErrSeen && len(recvd(cErr)) == 0 && len(recvd(cReadDone)) == 1 && len(recvd(cAlignWaitGroupDone)) == 1 && len(recvd(cTrimWaitGroupDone)) == 1 && 0 <= n && n <= 1 && len(recvd(cWriteDone)) + n == 1
+//@   before return#5: do gErrSeen = true
+//@   before return#6: do gErrSeen = true
+//@   before return#7: do gErrSeen = true
+//@   before return#8: do gErrSeen = true
+//@   before return#5: assert [c18.error.first] len(recvd(cErr)) == 1 && err == recvd(cErr)[0]
+//@   before return#6: assert [c18.error.first] len(recvd(cErr)) == 1 && err == recvd(cErr)[0]
+//@   before return#7: assert [c18.error.first] len(recvd(cErr)) == 1 && err == recvd(cErr)[0]
+//@   before return#8: assert [c18.error.first] len(recvd(cErr)) == 1 && err == recvd(cErr)[0]
+//@   before return#9: assert [c18.nil.means.clean] len(recvd(cErr)) == 0 && len(recvd(cReadDone)) == 1 && len(recvd(cAlignWaitGroupDone)) == 1 && len(recvd(cTrimWaitGroupDone)) == 1 && len(recvd(cWriteDone)) == 1
+//@   ensures [c18.error.returned] implies(gErrSeen, result != nil)
+//@ func Variants spawns
 //@   modifies everything
 //@   after if#3: assert [c18.oneref] len(refs) == 1
+//@   # the rest of the orchestration in spawns mode (model and assumptions: see closest.Closest)
+//@   after assign:cWriteDone#1: assume [env.errors] forallint(k, envat(cErr, k) != nil)
+//@   ghost gErrSeen bool = false
+//@   before call:groupSamRecords#1: assert [c11.reader] arg(0) == samIn && arg(1) == cSH && arg(2) == cSR && arg(3) == cReadDone && arg(4) == cErr
+//@   before call:blockToPairwiseAlignment#1: assert [c11.aligner] arg(0) == cSR && arg(1) == cPairAlign && arg(2) == cErr && arg(4) == false
+//@   before call:getVariantsSam#1: assert [c11.annotator] sameslice(arg(0), cdsregions) && sameslice(arg(1), intregions) && arg(2) == cPairAlign && arg(3) == cVariants && arg(4) == cErr
+//@   before call:AggregateWriteVariants#1: assert [c13.writer] aggregate && arg(0) == out && arg(6) == cVariants && arg(7) == cWriteDone && arg(8) == cErr
+//@   before call:WriteVariants#1: assert [c11.writer] !aggregate && arg(0) == out && arg(6) == cVariants && arg(7) == cWriteDone && arg(8) == cErr
+//@   before return#9: do gErrSeen = true
+//@   before return#9: assert [c18.error.first] len(recvd(cErr)) == 1 && err == recvd(cErr)[0]
+//@   loop 3:
+//@     invariant !gErrSeen && len(recvd(cErr)) == 0 && len(recvd(cReadDone)) == 0 && len(recvd(cAlignWaitGroupDone)) == 0 && len(recvd(cVariantsDone)) == 0 && len(recvd(cWriteDone)) == 0
+//@   loop 4:
+//@     invariant !gErrSeen && len(recvd(cErr)) == 0 && len(recvd(cReadDone)) == 0 && len(recvd(cAlignWaitGroupDone)) == 0 && len(recvd(cVariantsDone)) == 0 && len(recvd(cWriteDone)) == 0
+//@   loop 5:
+//@     invariant !gErrSeen && len(recvd(cErr)) == 0 && 0 <= n && n <= 1 && len(recvd(cReadDone)) + n == 1 && len(recvd(cAlignWaitGroupDone)) == 0 && len(recvd(cVariantsDone)) == 0 && len(recvd(cWriteDone)) == 0
+//@   loop 6:
+//@     invariant !gErrSeen && len(recvd(cErr)) == 0 && len(recvd(cReadDone)) == 1 && 0 <= n && n <= 1 && len(recvd(cAlignWaitGroupDone)) + n == 1 && len(recvd(cVariantsDone)) == 0 && len(recvd(cWriteDone)) == 0
+//@   loop 7:
+//@     invariant !gErrSeen && len(recvd(cErr)) == 0 && len(recvd(cReadDone)) == 1 && len(recvd(cAlignWaitGroupDone)) == 1 && 0 <= n && n <= 1 && len(recvd(cVariantsDone)) + n == 1 && len(recvd(cWriteDone)) == 0
+//@   loop 8:
+//@     invariant !gErrSeen && len(recvd(cErr)) == 0 && len(recvd(cReadDone)) == 1 && len(recvd(cAlignWaitGroupDone)) == 1 && len(recvd(cVariantsDone)) == 1 && 0 <= n && n <= 1 && len(recvd(cWriteDone)) + n == 1
+//@   before return#10: do gErrSeen = true
+//@   before return#11: do gErrSeen = true
+//@   before return#12: do gErrSeen = true
+//@   before return#13: do gErrSeen = true
+//@   before return#10: assert [c18.error.first] len(recvd(cErr)) == 1 && err == recvd(cErr)[0]
+//@   before return#11: assert [c18.error.first] len(recvd(cErr)) == 1 && err == recvd(cErr)[0]
+//@   before return#12: assert [c18.error.first] len(recvd(cErr)) == 1 && err == recvd(cErr)[0]
+//@   before return#13: assert [c18.error.first] len(recvd(cErr)) == 1 && err == recvd(cErr)[0]
+//@   before return#14: assert [c18.nil.means.clean] len(recvd(cErr)) == 0 && len(recvd(cReadDone)) == 1 && len(recvd(cAlignWaitGroupDone)) == 1 && len(recvd(cVariantsDone)) == 1 && len(recvd(cWriteDone)) == 1
+//@   ensures [c18.error.returned] implies(gErrSeen, result != nil)
 //@   # C11: the writer is started with the window, threshold and --append-snps exactly as given on the command line (the same
 //@   # values `variants` hands to the same writers), and with the reference's ID
 //@   # C11: with --reference the reference used for the pairs, the regions and the writer is the record read from that file
@@ -723,3 +786,34 @@ package sam
 //@   after call:Fprintln#2: assert [c12.order] AP == recv(cPair)[posOf(counter)] && AP.idx == counter && written(os.Stdout)[len(written(os.Stdout)) - 1] == ">" + AP.queryname + "\n"
 //@   after call:Fprintln#1: assert [c12.refrecord] written(os.Stdout)[len(written(os.Stdout)) - 1] == ">" + AP.refname + "\n"
 //@   before send#5: assert [c12.all] implies(p == "stdout", gDone == len(recv(cPair)) && len(written(os.Stdout)) == ite(omitRef, 2, 4) * len(recv(cPair)))
+
+//@ # C01/C15/C18/C19: the orchestration of `sam toMultiAlign` in spawns mode (model and assumptions: see closest.Closest).
+//@ # Proved: the reader, the writer the --wrap option selects and every worker are started on the right channels with the
+//@ # window that checkArgs returned and the --pad flag as given; an error received from any stage (also while waiting for
+//@ # the header) is returned; a nil return means none was received and reader, workers and writer signalled completion.
+//@ func ToMultiAlign spawns
+//@   modifies everything
+//@   after assign:cWaitGroupDone#1: assume [env.errors] forallint(k, envat(cErr, k) != nil)
+//@   ghost gErrSeen bool = false
+//@   before call:groupSamRecords#1: assert [c01.reader] arg(0) == samIn && arg(1) == cSH && arg(2) == cSR && arg(3) == cReadDone && arg(4) == cErr
+//@   before call:WriteWrapAlignment#1: assert [c15.writer.wrap] wrap > 0 && arg(0) == cFR && arg(1) == out && arg(2) == wrap && arg(3) == cWriteDone && arg(4) == cErr
+//@   before call:WriteAlignment#1: assert [c15.writer] wrap <= 0 && arg(0) == cFR && arg(1) == out && arg(2) == cWriteDone && arg(3) == cErr
+//@   before call:blockToFastaRecord#1: assert [c01.worker] arg(0) == cSR && arg(1) == cFR && arg(2) == cErr && arg(3) == refLen && arg(4) == trim && arg(5) == pad && arg(6) == trimstart && arg(7) == trimend && arg(8) == false
+//@   before return#1: do gErrSeen = true
+//@   before return#1: assert [c18.error.first] len(recvd(cErr)) == 1 && err == recvd(cErr)[0]
+//@   loop 1:
+//@     invariant !gErrSeen && len(recvd(cErr)) == 0 && len(recvd(cReadDone)) == 0 && len(recvd(cWaitGroupDone)) == 0 && len(recvd(cWriteDone)) == 0
+//@   loop 2:
+//@     invariant !gErrSeen && len(recvd(cErr)) == 0 && 0 <= n && n <= 1 && len(recvd(cReadDone)) + n == 1 && len(recvd(cWaitGroupDone)) == 0 && len(recvd(cWriteDone)) == 0
+//@   loop 3:
+//@     invariant !gErrSeen && len(recvd(cErr)) == 0 && len(recvd(cReadDone)) == 1 && 0 <= n && n <= 1 && len(recvd(cWaitGroupDone)) + n == 1 && len(recvd(cWriteDone)) == 0
+//@   loop 4:
+//@     invariant !gErrSeen && len(recvd(cErr)) == 0 && len(recvd(cReadDone)) == 1 && len(recvd(cWaitGroupDone)) == 1 && 0 <= n && n <= 1 && len(recvd(cWriteDone)) + n == 1
+//@   before return#4: do gErrSeen = true
+//@   before return#5: do gErrSeen = true
+//@   before return#6: do gErrSeen = true
+//@   before return#4: assert [c18.error.first] len(recvd(cErr)) == 1 && err == recvd(cErr)[0]
+//@   before return#5: assert [c18.error.first] len(recvd(cErr)) == 1 && err == recvd(cErr)[0]
+//@   before return#6: assert [c18.error.first] len(recvd(cErr)) == 1 && err == recvd(cErr)[0]
+//@   before return#7: assert [c18.nil.means.clean] len(recvd(cErr)) == 0 && len(recvd(cReadDone)) == 1 && len(recvd(cWaitGroupDone)) == 1 && len(recvd(cWriteDone)) == 1
+//@   ensures [c18.error.returned] implies(gErrSeen, result != nil)
